@@ -5,10 +5,10 @@ from .. import hx
 ID = "C02"
 LEVEL = "model_checking"
 BOUNDS = {
-    "quick": "two trains with 0..2 spikes each plus (0|1)+4 in both orders (py, MRTS omitted) and 2+4 / 4+2 (py, plain, MRTS omitted) (all 9 size pairs; n1+n2 <= 3 when MRTS is symbolic), RI in {False, True}, MRTS omitted and symbolic >= 0, "
+    "quick": "two trains with 0..2 spikes each plus (0|1)+4 in both orders (py, MRTS omitted) (all 9 size pairs; n1+n2 <= 3 when MRTS is symbolic), RI in {False, True}, MRTS omitted and symbolic >= 0, "
              "backends py and pyx; profile compared at the left and right limit of every piece; scalar distance; "
              "evaluation f(t) at a symbolic time for n1+n2 <= 2",
-    "thorough": "0..3 spikes each with n1+n2 <= 4 for all variants (symbolic MRTS included), 3+2 / 2+3 for plain/MRTS omitted/py",
+    "thorough": "as quick plus 2+4 / 4+2 (py, plain, MRTS omitted), (0|1)+4 also pyx; 0..3 spikes each with n1+n2 <= 4 for all variants (symbolic MRTS included), 3+2 / 2+3 for plain/MRTS omitted/py",
 }
 OUTSIDE = "more spikes; float rounding"
 ASSUMPTIONS = ["oracle: hx.spike_profile_oracle - previous/following spike by scan, nearest-spike distance as a global "
@@ -33,7 +33,7 @@ def configs(tier):
                                    split_forks=(8 if n1 + n2 >= 3 else None), validate=3)
                 # asymmetric pairs with one long train (code that only triggers from 4 spikes on)
                 if mk == "omit" and (be == "py" or tier != "quick"):
-                    for (n1, n2) in ((1, 4), (4, 1), (0, 4), (4, 0)) + (((2, 4), (4, 2)) if ri == 0 and be == "py" else ()):
+                    for (n1, n2) in ((1, 4), (4, 1), (0, 4), (4, 0)) + (((2, 4), (4, 2)) if ri == 0 and be == "py" and tier != "quick" else ()):
                         yield dict(name="%s-ri%d-m%s-%d+%d" % (be, ri, mk, n1, n2), what="profile", backend=be,
                                    ri=ri, m=mk, n1=n1, n2=n2, fork=True, cost=8 ** (min(n1, n2) + 3),
                                    split_forks=9, validate=3)
